@@ -44,6 +44,9 @@ func snapJudge(c *fw.Ctx, sc *SnapCase, needInside bool, mon func(c *fw.Ctx, o *
 	if !o.Valid {
 		c.Rec.Count("invalid_input")
 	}
+	if o.InputModified {
+		c.Rec.Count("caller_memory_written(observed, judged through its consequences)")
+	}
 	if o.Panic != nil {
 		c.Rec.Abort(fmt.Sprintf("snap.SnapPolygon panicked (%s at %s); judged by C06, not by this property", o.PanicText, o.PanicSite), cj)
 		return
